@@ -405,12 +405,13 @@ class BaseDOELibrary(BaseDriverLibrary, Serializable):
             whose rows are the samples and columns the variables.
         """
         design_space = self.__get_design_space(variables_space)
-        if not unit_sampling:
-            if isinstance(design_space, DesignSpace):
-                integer_normalization_enabled = (
-                    self.__enable_integer_variables_normalization(design_space)
-                )
+        is_design_space = isinstance(design_space, DesignSpace)
+        if is_design_space:
+            integer_normalization_enabled = (
+                self.__enable_integer_variables_normalization(design_space)
+            )
 
+        if not unit_sampling:
             self.__check_unnormalization_capability(design_space)
 
         # Validate and filter the settings
@@ -419,12 +420,11 @@ class BaseDOELibrary(BaseDriverLibrary, Serializable):
             model_to_exclude=BaseDOESettings,
         )
 
-        unit_samples = self._generate_unit_samples(design_space, **settings)
-        if unit_sampling:
-            return unit_samples
+        samples = self._generate_unit_samples(design_space, **settings)
+        if not unit_sampling:
+            samples = design_space.untransform_vect(samples, no_check=True)
 
-        samples = design_space.untransform_vect(unit_samples, no_check=True)
-        if isinstance(design_space, DesignSpace):
+        if is_design_space:
             self.__reset_integer_variables_normalization(
                 design_space, integer_normalization_enabled
             )
